@@ -470,6 +470,7 @@ func checkC19(c *Ctx) {
 	// ---------------- R19g
 	c19Required(c, decls, info)
 	c19ContainerRulesReached(c, decls, info)
+	c19RequiredDependsOnRuleOnly(c)
 }
 
 func shortType(t types.Type) string {
@@ -780,4 +781,44 @@ func c19ContainerRulesReached(c *Ctx, decls map[*types.Func]*ast.FuncDecl, info 
 		return
 	}
 	r.Unres("R19h", "extractValidationConstraints", "", "not found")
+}
+
+// c19RequiredDependsOnRuleOnly: R19i — whether a property is listed in `required` depends on the field's
+// (buf.validate.field).required rule alone: checkIfFieldRequired is walked with every descriptor fact symbolic and
+// may consult nothing about the field's presence discipline (oneof membership — which protogen also reports for
+// proto3 optional fields —, optional keyword, kind, cardinality).
+func c19RequiredDependsOnRuleOnly(c *Ctx) {
+	r := c.R
+	r.Rule("R19i", "the required list depends on the required rule only (not on oneof membership, the optional keyword, kind or cardinality)", 1)
+	fn := c.P.Func(pkgOpenAPI, "checkIfFieldRequired")
+	if fn == nil {
+		r.Unres("R19i", "checkIfFieldRequired", "", "not found")
+		return
+	}
+	pos := c.P.Pos(c.P.Decls[fn].Pos())
+	outs, probs, capped := c.W.EvalAll(fn, nil, true, 128)
+	if len(probs) > 0 || capped || len(outs) == 0 {
+		r.Undec("R19i", "checkIfFieldRequired", pos, fmt.Sprintf("outcomes=%d capped=%v problems=%v", len(outs), capped, probs))
+		return
+	}
+	var bad []string
+	seen := map[string]bool{}
+	reads := false
+	for _, o := range outs {
+		if v := o.Result; v != nil && strings.Contains(v.key(), "GetRequired") {
+			reads = true
+		}
+		for _, u := range o.Used {
+			k := eraseIters(u.Key)
+			for _, w := range []string{".Oneof", "HasOptionalKeyword", "HasPresence", "Kind()", "IsList()", "IsMap()", "Cardinality", "Syntax"} {
+				if strings.Contains(k, w) && !seen[k] {
+					seen[k] = true
+					bad = append(bad, k)
+				}
+			}
+		}
+	}
+	sort.Strings(bad)
+	r.Check(len(bad) == 0 && reads, "R19i", "checkIfFieldRequired consults the required rule only", pos,
+		fmt.Sprintf("checkIfFieldRequired decides on %v (result mentions the rule: %v): a field that carries (buf.validate.field).required = true but is a proto3 optional field (protogen gives it a synthetic oneof) or a oneof member is dropped from `required`, so the schema accepts objects the rule rejects", bad, reads))
 }
